@@ -35,6 +35,7 @@ def run(chk):
     e10.run_U(chk, ("yastn.tensor",), floor1=5, floor2=1)
 
 MUTANTS = [
+    ('diag keeps the pending permutation', 'yastn/tensor/_single.py', '    return a._replace(struct=struct, slices=slices, data=data, hfs=hfs, trans=None)\n\n\ndef remove_zero_blocks', '    return a._replace(struct=struct, slices=slices, data=data, hfs=hfs)\n\n\ndef remove_zero_blocks', 'I2'),
     ("block subset applied to charges and shapes but not to data slices", "yastn/tensor/_merging.py", "        sl_old = [slices[ii] for ii in inds]\n        struct = struct._replace(t=t_old, D=D_old)", "        sl_old = slices\n        struct = struct._replace(t=t_old, D=D_old)", "I6"),
     ("no-fusion kernel: slices of a not narrowed to contracted blocks", "yastn/tensor/_contractions.py", "    slices_a = [sl.slcs[0] for sl in slices_a] if ind_a is None else [slices_a[ii].slcs[0] for ii in ind_a]", "    slices_a = [sl.slcs[0] for sl in slices_a]", "I6"),
     ("unrolled output charge slice unaligned", "yastn/tensor/oe_blocksparse.py", "block_ct[out_ax * nsym : (out_ax + 1) * nsym]", "block_ct[out_ax : out_ax + nsym]", "S6"),
